@@ -252,7 +252,11 @@ class Model(LPModel):
 
             eye_indices = [item for inner in primal.qmat for item in inner]
             eye_block = dual_lp.linear[eye_indices, :]
-            if len(eye_block.data) + 1 == len(eye_block.indptr):
+            head_block = dual_lp.linear[[qc[0] for qc in primal.qmat], :]
+            if ((eye_block.getnnz(axis=1) == 1).all() and
+                    (eye_block.getnnz(axis=0) <= 1).all() and
+                    (abs(eye_block.data) == 1).all() and
+                    (head_block.data == 1).all()):
                 lin_indices = [ind for ind in range(primal.linear.shape[1])
                                if ind not in eye_indices]
                 linear = dual_lp.linear[lin_indices, :]
